@@ -136,7 +136,12 @@ fn batch<C: Suite>(size: usize, layout: usize, seed: &str) -> (Vec<Entry<C>>, Ve
         let mut msg = msg;
         msg.extend_from_slice(format!("#{}", i % 3).as_bytes());
         let mut rng = ScriptedRng::ctr(format!("{seed}.sig{i}"));
-        let sig = sk.sign(&mut rng, &msg);
+        let mut sig = sk.sign(&mut rng, &msg);
+        if C::TAPROOT && i % 2 == 1 {
+            // the same x-only signature held in memory with the other Y for R (what aggregate() returns for
+            // about half of the sessions): VerifyingKey::verify accepts it, so must the batch paths
+            sig = Signature::<C>::new(G::<C>::identity() - *sig.R(), *sig.z());
+        }
         entries.push(Entry { vk: VerifyingKey::<C>::from(&sk), sig, msg });
         keys.push(sk);
     }
@@ -476,6 +481,50 @@ fn run_boundary<C: Suite>(c: &Case) -> Outcome {
                     o.fail(
                         format!("{tag}/boundary-blinder/{}", if valid { "valid-batch-rejected" } else { "invalid-batch-accepted" }),
                         format!("blinder value {name} at item {pos}: batch verification returned ok={got} for a batch that is {}", if valid { "valid" } else { "invalid" }),
+                    );
+                }
+            }
+        }
+    }
+    // raw source answers outside the scalar range, none congruent to 0 (all ones; order + 1, in both byte
+    // orders): whatever the suite does with them (reduce, or draw again), the verdict must not change
+    let qm1 = sc_bytes::<C>(&neg::<C>(one::<C>()));
+    let mut raws: Vec<(String, Vec<u8>)> = vec![("0xff-bytes".into(), vec![0xff; 256])];
+    for (nm, add) in [("q+1", 2u8)] {
+        let mut a = qm1.clone();
+        let l = a.len();
+        a[0] = a[0].wrapping_add(add);
+        let mut b = qm1.clone();
+        b[l - 1] = b[l - 1].wrapping_add(add);
+        let mut ar = a.clone();
+        ar.reverse();
+        let mut br = b.clone();
+        br.reverse();
+        for (j, x) in [a, b, ar, br].into_iter().enumerate() {
+            raws.push((format!("{nm}#{j}"), x));
+        }
+    }
+    for (name, bytes) in raws {
+        for pos in 0..2 {
+            for (valid, set) in [(true, &entries), (false, &bad)] {
+                let Some(v) = mk(set) else {
+                    o.machinery_error("items");
+                    return o;
+                };
+                let mut rng = ScriptedRng::ctr(format!("bb:{name}")).with_dev(pos, Dev::Bytes(bytes.clone()));
+                // what the suite makes of this answer (machinery: a zero here would legitimately hide the item)
+                let as_scalar = {
+                    let mut r = ScriptedRng::ctr("x").with_dev(0, Dev::Bytes(bytes.clone()));
+                    let s = F::<C>::random(&mut r);
+                    (s, r.calls.len())
+                };
+                let got = v.verify(&mut rng).is_ok();
+                o.eval(true);
+                o.count("out_of_range_blinder_answers", 1);
+                if got != valid {
+                    o.fail(
+                        format!("{tag}/boundary-blinder/{}", if valid { "valid-batch-rejected" } else { "invalid-batch-accepted" }),
+                        format!("source answer {name} at item {pos} (Field::random makes zero of it: {}, draws: {}): batch verification returned ok={got} for a batch that is {}", as_scalar.0 == zero::<C>(), as_scalar.1, if valid { "valid" } else { "invalid" }),
                     );
                 }
             }
